@@ -109,10 +109,11 @@ def rows_token(rows):
     return "/".join(",".join(str(x) for x in r) if r else "-" for r in rows)
 
 
-def observe_view(obj, alloc_bytes):
-    """shape!strides!itemsize!format!ndim!nbytes!readonly!tolist!bytes!xchk"""
+def observe_view(obj, alloc_bytes, held=None):
+    """shape!strides!itemsize!format!ndim!nbytes!readonly!tolist!bytes!xchk
+    held: a memoryview exported EARLIER and kept alive (read instead of a fresh one, not released)"""
     try:
-        mv = memoryview(obj)
+        mv = held if held is not None else memoryview(obj)
     except BaseException as e:
         return exc_token(e)
     try:
@@ -150,7 +151,8 @@ def observe_view(obj, alloc_bytes):
     except BaseException as e:
         return "E9:view-" + type(e).__name__
     finally:
-        mv.release()
+        if held is None:
+            mv.release()
 
 
 # ------------------------------------------------------------------ buffer address
@@ -502,19 +504,44 @@ def run_case(lib, line):
         else:
             obj = lib.EncodedSequence(seq, bool(prot)).stripe()
         wraps, views, wrap, scanners = [], [], 0, []
+        # op "h": export a view NOW and keep it; after every later reconfiguration the OLD view is
+        # read again, but only while the buffer address handed out by __getbuffer__ is still the one
+        # of the export (same allocation: safe to read; a moved buffer = finding F24, never read)
+        held, held_addr = None, None
+
+        def drop_held():
+            nonlocal held, held_addr
+            if held is not None:
+                held.release()
+            held, held_addr = None, None
+
         for op in f.get("hist", "v").split(";"):
             if op == "v":
                 views.append("%s@%s" % (",".join(map(str, wraps)), observe_view(obj, (R + wrap) * LANES)))
+            elif op == "h":
+                drop_held()
+                a = buffer_address(obj)
+                if a is not None:
+                    held, held_addr = memoryview(obj), a
             elif op == "k":
+                drop_held()
                 obj = obj.copy()
             elif op == "K":
                 import copy
+                drop_held()
                 obj = copy.copy(obj)
             else:
                 M = reconfigure(lib, obj, op, prot, scanners)
                 if M is not None:
                     wraps.append(M)
                     wrap = max(wrap, M - 1)
+                    if held is not None:
+                        if buffer_address(obj) == held_addr:
+                            views.append("%s@%s" % (",".join(map(str, wraps)),
+                                                    observe_view(obj, (R + wrap) * LANES, held=held)))
+                        else:
+                            drop_held()
+        drop_held()
         RAWOBJ[0] = obj
         RAWOBJ[1] = ",".join(map(str, wraps))
         return "obj=striped:%d:%s:0 LM=%d,0 %s views=%s" % (R, ",".join(map(str, pos)), L,
@@ -741,12 +768,16 @@ def gen(seed, n, tier):
             t.append("seq=" + rand_seq(rng, rand_len(rng, tier), prot))
             t.append("via=" + rng.choice(["fn", "enc"]))
             ops = ["v"]
+            if rng.random() < 0.5:
+                ops.append("h")      # keep a view exported across the reconfigurations that follow
             for _ in range(rng.randrange(0, 6)):
                 # calculate(), copy()/copy.copy(), a new live Scanner (DNA), advancing the live Scanners
                 ops.append(rng.choice(["c%d" % rand_width(rng), "c%d" % rand_width(rng), "k", "K"] +
                                       ([] if prot else ["s%d" % rand_width(rng), "s%d" % rand_width(rng), "n", "n"])))
                 if rng.random() < 0.8:
                     ops.append("v")
+                if rng.random() < 0.15:
+                    ops.append("h")
             t.append("hist=" + ";".join(ops))
         elif cls == "alloc":
             L = rng.choice([0, 1, 32, 33, 64, 65, 100, 320, 321, 640, 1000, rng.randrange(0, 1200)])
